@@ -34,6 +34,7 @@ REL = nnm.REL
 
 def run(chk):
     idx = chk.idx
+    R.rule_ctor_signature(chk, "C01.R6")
     R.rule_stateless(chk, "C01.R8")  # first: its refutations stand even if a later rule cannot read the code
     reg = nnm.registry(idx)
     fl = nnm.flow(idx, reg)
@@ -51,7 +52,7 @@ def run(chk):
     tfs = R.facts(idx)
     chk.need("C01.R1", len(tfs), 6, "test methods")
     for name, tf in tfs.items():
-        R.rule_factor_and_composition(chk, tf, {"single": "C01.R1"})
+        R.rule_factor_and_composition(chk, tf, {"single": "C01.R1", "composition": "C01.R1"})  # (the history is min(1, 1/T) of that product, nothing applied on top)
         R.rule_unit_mean(chk, tf, "C01.R2")
         R.classify_overrides(chk, tf, "C01.R5")
     # R3 predictability: registry + every operand of each factor
